@@ -258,6 +258,8 @@ class StubSim(mosaik_api_v3.Simulator):
             run.fault_state.setdefault("on_node_write", {})[self.sid] = "kill"
         elif kind == "torn_reply":
             run.fault_state.setdefault("on_node_write", {})[self.sid] = "torn"
+        elif kind == "reset_after_reply":
+            run.fault_state.setdefault("on_node_write", {})[self.sid] = "reset"
 
     def _mangle(self, func, ret):
         f = self._fault(func, self.cur_req, "reply")
